@@ -161,3 +161,13 @@ def layout(name, v):
 def types_only(lay):
     """field names are pyCraft's own choice; the published layout is the type sequence"""
     return None if lay is None else [t for _, t in lay]
+
+
+# Layout switch points that fall on development snapshots, as documented in the protocol version
+# history (and quoted in the C07 property text): first protocol number using the NEW layout.
+SNAPSHOT_SWITCH = {
+    'keep_alive_long': 339,      # 1.12.2-pre1: keep-alive id VarInt -> Long (both directions)
+    'teleport_id': 107,          # 1.9: position-and-look carries a teleport id, confirmed by the client
+    'login_uuid_binary': 707,    # 20w12a: login success UUID sent in binary
+    'chat_sender': 718,          # 20w21a: clientbound chat carries the sender UUID
+}
